@@ -22,6 +22,17 @@ def _iterate_dict_like(iterable: KeyValuePairs) -> List[Tuple[Any, Any]]:
     return list(iterable)
 
 
+def _basic_key(key: Any) -> Any:
+    """
+    A basic value tree is JSON-like: the keys of a map are strings. Numeric and boolean keys
+    (``DictField(IntField(), ...)``) are written as text; the key field converts them back when
+    the tree is loaded.
+    """
+    if isinstance(key, (bool, int, float)):
+        return str(key)
+    return key
+
+
 def _entry_ref_path(cfg: Config, dict_field: "DictField", key: Any) -> str:
     """
     Get the full reference path to a dictionary entry. The path starts at the owning
@@ -233,7 +244,7 @@ class DictField(Field):
             return dict(value)
 
         return {
-            self.key_field.to_basic(cfg, key): self.value_field.to_basic(cfg, val)  # type: ignore
+            _basic_key(self.key_field.to_basic(cfg, key)): self.value_field.to_basic(cfg, val)  # type: ignore
             for key, val in value.items()
         }
 
